@@ -398,6 +398,34 @@ def integration(ctx, tmp):
         if not (a == k == w == bd) or len(a) != 3:
             viol(f"visit={v}: data-ID / kwargs / where / bind spellings return {len(a)}/{len(k)}/{len(w)}/{len(bd)} rows", f"spellings:{v}",
                  {"kind": "spellings", "visit": v})
+    # ---- a data ID together with keyword arguments: the keywords extend it and, for a key given both ways, take precedence —
+    # the same rows as the merged data ID, through the convenience wrappers and through Query.where
+    from lsst.daf.butler import DataCoordinate
+
+    for v, v2 in ((1, 4), (4, 7), (7, 1)):
+        merged = {tuple(sorted(d.required.items())) for d in b.query_data_ids(["visit", "detector"], data_id={"instrument": "I", "visit": v2}, explain=False)}
+        forms = {
+            "query_data_ids(data_id={visit: a}, visit=b)": lambda: b.query_data_ids(["visit", "detector"], data_id={"instrument": "I", "visit": v}, visit=v2, explain=False),
+            "query_data_ids(data_id=DataCoordinate(visit=a), visit=b)": lambda: b.query_data_ids(
+                ["visit", "detector"], data_id=DataCoordinate.standardize(instrument="I", visit=v, universe=b.dimensions), visit=v2, explain=False),
+            "query_data_ids(data_id={instrument}, visit=b)": lambda: b.query_data_ids(["visit", "detector"], data_id={"instrument": "I"}, visit=v2, explain=False),
+        }
+
+        def _via_where():
+            with b.query() as q_:
+                return list(q_.data_ids(["visit", "detector"]).where({"instrument": "I", "visit": v}, visit=v2))
+
+        forms["Query.where({visit: a}, visit=b)"] = _via_where
+        for form, f_ in forms.items():
+            ctx.evaluations += 1
+            ctx.count("data-id-with-keywords")
+            try:
+                got = {tuple(sorted(d.required.items())) for d in f_()}
+            except Exception as e:
+                got = f"{type(e).__name__}: {str(e)[:80]}"
+            if got != merged or len(merged) != 3:
+                viol(f"{form} with a={v}, b={v2} returns {sorted(got) if isinstance(got, set) else got}; the merged data ID (visit={v2}) returns {sorted(merged)}",
+                     f"data-id-kwargs:{form}", {"kind": "spellings", "form": form, "visit": [v, v2]})
     # negative limit through the convenience wrappers = warn and cap: min(|limit|, n) rows, for limits around the number of matches
     n_det = 3
     wrappers = {
